@@ -1,0 +1,38 @@
+//! Verification hooks (only built with the `verif-hooks` feature)
+//!
+//! A single process-wide callback can be installed with [`set_hook`]; the
+//! library then calls it at a handful of scheduling-relevant points
+//! ([`Point`]).  With no callback installed, [`point`] is a no-op.
+use std::sync::atomic::{AtomicUsize, Ordering};
+
+/// Places at which the hook is invoked
+#[derive(Copy, Clone, Debug, Eq, PartialEq)]
+#[repr(u32)]
+pub enum Point {
+    /// Start of a root-tile task in the rasterizers
+    TileTask = 1,
+    /// Entry to a (sub)tile in the recursive 2D / 3D tile renderers
+    SubTile = 2,
+    /// Start of an octree task during multithreaded meshing
+    OctreeTask = 3,
+    /// A cancellation poll (`CancelToken::is_cancelled`)
+    CancelPoll = 4,
+}
+
+static HOOK: AtomicUsize = AtomicUsize::new(0);
+
+/// Installs (or removes) the process-wide hook
+pub fn set_hook(f: Option<fn(Point)>) {
+    HOOK.store(f.map(|f| f as usize).unwrap_or(0), Ordering::SeqCst);
+}
+
+/// Invokes the hook, if one is installed
+#[inline]
+pub fn point(p: Point) {
+    let h = HOOK.load(Ordering::SeqCst);
+    if h != 0 {
+        // SAFETY: the only non-zero values ever stored are `fn(Point)`s
+        let f: fn(Point) = unsafe { std::mem::transmute(h) };
+        f(p);
+    }
+}
